@@ -266,6 +266,12 @@ func c01(c *core.Ctx) {
 		c.EndRule()
 	}
 
+	// ---------------------------------------------------------------- R7
+	if c.Rule("R7", "HTTP: what the receiver decodes are exactly the bytes of one frame (or of the whole unary body): a buffer reaches Unmarshal or the message channel only after a full read of that very buffer found its error nil; no short read, no limited reader, no reused buffer (obligations shared with C07/R3)", 6) {
+		c07BufferProvenance(c, p.LibFuncs("httpgrpc"))
+		c.EndRule()
+	}
+
 	// ---------------------------------------------------------------- R2
 	if c.Rule("R2", "a send reports success only if the frame was handed over, exactly once", 6) {
 		c01Sends(c)
